@@ -33,6 +33,8 @@ func (c *OnceConstructor[K, V]) Get(key K) (v V) {
 	// of whether it's this one.
 	//
 	// TODO(a.garipov):  See if sync.Once or a similar stdlib API can be used.
+	verifGate("once.miss")
+
 	var cached V
 	done := make(chan struct{}, 1)
 	done <- struct{}{}
@@ -47,6 +49,8 @@ func (c *OnceConstructor[K, V]) Get(key K) (v V) {
 
 		return cached
 	})
+
+	verifGate("once.stored")
 
 	return loaderVal.(func() (v V))()
 }
